@@ -109,7 +109,7 @@ struct HistCase {
 }
 
 fn hist_case(tier: Tier, ins: &'static [InT], min_w: usize, fill_nulls: bool) -> impl Strategy<Value = HistCase> {
-    (raw_series(3usize..=tier.pick(60, 200)), in_types(ins), any::<u16>(), any::<u16>(), any::<u8>(), any::<u16>()).prop_map(
+    (raw_series_of(3usize..=tier.pick(60, 200), PRICE_CLASSES), in_types(ins), any::<u16>(), any::<u16>(), any::<u8>(), any::<u16>()).prop_map(
         move |(rs, tin, ws, hs, mm, ms)| {
             let (mut x, class) = series_of(&rs, tin);
             if fill_nulls {
